@@ -19,7 +19,7 @@ EXPLANATION = (
     "four breakpoints AS FORMULAS IN E (continuity for any exponent); per-junction overrides use 'node value if not None else global' and "
     "trigger re-computation. Decides the curve registered with the solver, not the solved demand.")
 RULE_TEXT = "one instance = one branch formula, guard, spline identity, breakpoint datum or override rule"
-ASSUMPTIONS = ["Pnom > Pmin, 0 < E <= 1, delta > 0 (pnom_param enforces Pnom > delta)", "monotonicity of the two smoothing cubics between their end data is not decided"]
+ASSUMPTIONS = ["Pnom > Pmin, 0 < E <= 1", "monotonicity of the two smoothing cubics between their end data is not decided", "R-C07-5 evaluates the band-width expression on a grid of pressure ranges (1e-4 .. 1e3 m, incl. the option defaults), not for every real range"]
 
 
 def spline_hook(record):
@@ -30,6 +30,21 @@ def spline_hook(record):
             return tuple(Opaque("spline%d.%s" % (i, k)) for k in "abcd")
         return NotImplemented
     return hook
+
+
+def option_defaults(repo):
+    """defaults of HydraulicOptions.__init__ for the PDD pressures (plain constants), or {}"""
+    try:
+        fn = repo.func("wntr/network/options.py", "HydraulicOptions.__init__")
+    except AnchorError:
+        return {}
+    out = {}
+    a = fn.args
+    names = [x.arg for x in a.args]
+    for nm, dv in zip(names[len(names) - len(a.defaults):], a.defaults):
+        if nm in ("required_pressure", "minimum_pressure") and isinstance(const(dv), (int, float)):
+            out[nm] = float(const(dv))
+    return out
 
 
 def run(repo, chk):
@@ -44,6 +59,8 @@ def run(repo, chk):
     chk.fn(fn)
     g = {}
     seen_exp = set()
+    widths = set()
+    baked = set()
     for p in paths:
         iso = [v for t, v in p.conds if t.endswith("._is_isolated")]
         st = p.stores("m.pdd[")
@@ -72,16 +89,44 @@ def run(repo, chk):
         a2, b2, c2, d2 = (cs("pdd_poly2_coeffs_" + k) for k in "abcd")
         refs[1] = a1 * P ** 3 + b1 * P ** 2 + c1 * P + d1
         refs[3] = a2 * P ** 3 + b2 * P ** 2 + c2 * P + d2
-        gref = [P - pmin, P - pmin - delta, P - pnom + delta, P - pnom]
+        bodies = []
+        for gd, _e in brs[:4]:
+            if not (isinstance(gd, Ineq) and gd.lb is None and gd.ub is not None):
+                bodies = None
+                break
+            bodies.append(canon(gd.body)[0] - canon(ex.S(gd.ub))[0])
+        if bodies is None:
+            chk.bad("R-C07-1", "the four guards are upper-bounded inequalities [%s]" % tag, loc(fn), found=[str(b[0]) for b in brs[:4]])
+            continue
+        # band width as the constraint sees it: whatever separates guard 1 from p-Pmin and guard 2 from p-Pnom (a constant or a per-junction Param)
+        w_lo = sp.simplify((P - pmin) - bodies[1])
+        w_hi = sp.simplify(bodies[2] - (P - pnom))
+        free = {s_.name for s_ in (w_lo.free_symbols | w_hi.free_symbols)}
+        chk.expect(is_zero(w_lo - w_hi) and not ({"h", "elev", "demand"} & free), "R-C07-1",
+                   "both smoothing bands of the constraint have one width that does not depend on the unknowns [%s]" % tag, loc(fn),
+                   found="lower band %s, upper band %s" % (w_lo, w_hi))
+        widths.add(w_lo)
+        gref = [P - pmin, P - pmin - w_lo, P - pnom + w_lo, P - pnom]
         for i, (gd, e) in enumerate(brs):
             R, _ = canon(ex.S(e))
             chk.expect(is_zero(R - (d - D * refs[i])), "R-C07-1", "branch %d residual is  d - D*g%d(p) [%s]" % (i, i + 1, tag), loc(fn),
                        "documented pressure-demand curve", expected=str(d - D * refs[i]), found=str(R))
             if gd is not None:
-                okg = isinstance(gd, Ineq) and gd.lb is None and gd.ub is not None and is_zero(canon(gd.body)[0] - canon(ex.S(gd.ub))[0] - gref[i])
-                chk.expect(bool(okg), "R-C07-1", "branch %d guard is %s <= 0 [%s]" % (i, gref[i], tag), loc(fn), found=str(gd))
+                chk.expect(is_zero(bodies[i] - gref[i]), "R-C07-1", "branch %d guard is p <= %s [%s]" % (i, ["Pmin", "Pmin + band", "Pnom - band", "Pnom"][i], tag), loc(fn),
+                           expected="%s <= 0" % gref[i], found=str(gd))
+        # values of the junction baked into the row as plain numbers (not Params): the row must be rebuilt when they change
+        for gd, e in brs:
+            for s_ in ex.S(e).free_symbols:
+                if s_.name.startswith("wn.get_node(node_name)."):
+                    baked.add(s_.name.split(".")[-1])
+        for t, v in p.conds:
+            if t.startswith("wn.get_node(node_name).") and t.endswith(" is None"):
+                baked.add(t[len("wn.get_node(node_name)."):-len(" is None")])
         g = {1: refs[0], 3: refs[2], 5: refs[4]}
-    B.check_updaters(chk, "R-C07-1", fn, "pdd_constraint", paths, {"_is_isolated"}, loc(fn))
+    B.check_updaters(chk, "R-C07-1", fn, "pdd_constraint", paths, {"_is_isolated"} | baked, loc(fn))
+    if len(widths) != 1:
+        raise ExtractError("pdd_constraint: band width not unique across paths: %s" % sorted(map(str, widths)))
+    W = widths.pop()
     chk.expect(seen_exp == {True, False}, "R-C07-1", "both exponent sources (junction / global) are handled", loc(fn), found=sorted(seen_exp))
     # monotone analytic branches
     pp = sp.Symbol("p", positive=True)
@@ -120,7 +165,10 @@ def run(repo, chk):
     # analyse each path separately: re-run per path is not needed, the hook records calls per evaluation order; use the path where
     # both node values are set and the one where both are None -- the recorded data must agree on every path after canonicalisation.
     npaths = 0
+    wexprs = []
     for pth in ppaths:
+        if pth.st.raised:
+            continue
         rec2 = []
         # re-run with a hook bound to this path's decisions
         decisions = dict(pth.conds)
@@ -131,6 +179,7 @@ def run(repo, chk):
                 return r
             return decisions.get(txt)
         _, pp2, ex2 = B.run_builder(repo, PAR, "pdd_poly_coeffs_param.build", test_hook=th, call_hook=spline_hook(rec2))
+        pp2 = [q_ for q_ in pp2 if not q_.st.raised]
         if len(pp2) != 1 or len(rec2) != 2:
             raise ExtractError("pdd_poly_coeffs_param: expected one path with two cubic_spline calls, got %d paths / %d calls" % (len(pp2), len(rec2)))
         npaths += 1
@@ -157,17 +206,42 @@ def run(repo, chk):
             e_, _ = canon(ex2.S(v))
             return e_.xreplace(sub)
         (x1a, x2a, f1a, f2a, df1a, df2a), (x1b, x2b, f1b, f2b, df1b, df2b) = [[C(v) for v in r] for r in rec2]
+        # the band width the spline data are built with; if the constraint reads its band from a per-junction Param, that Param must be
+        # filled here with the same expression (plumbing), else the guards and the fitted interval disagree
+        wb = sp.simplify(x2a - x1a)
+        wexprs.append((tag, wb))
+        if W == delta:
+            w_con = delta
+        else:
+            pname = [s_.name for s_ in W.free_symbols]
+            stored = None
+            for e in p2.st.events:
+                if e[0] == "call" and e[1].startswith("aml.Param("):
+                    pass
+            sts = [x_ for x_ in p2.stores("m.") if x_[0].endswith("[node_name]") and canon(ex2.sym(x_[0]))[0] == W]
+            pars = [e for e in p2.st.events if e[0] == "call" and e[1].startswith("aml.Param(")]
+            allst = [x_ for x_ in p2.stores("m.") if x_[0].endswith("[node_name]")]
+            for (t_, v_, ln_), pe in zip(allst, pars):
+                if canon(ex2.sym(t_))[0] == W:
+                    stored = C(pe[2][1][0])
+            if stored is None:
+                chk.bad("R-C07-3", "the per-junction band width %s read by the constraint is filled by pdd_poly_coeffs_param [%s]" % (W, tag), loc(pfn),
+                        found=[x_[0] for x_ in allst][:12])
+                continue
+            chk.expect(is_zero(stored - wb), "R-C07-3", "the band width stored for the constraint equals the one the splines are fitted on [%s]" % tag, loc(pfn),
+                       expected=str(wb), found=str(stored))
+            w_con = wb
         g1 = lambda q: slope * (q - pmin)
         g3 = lambda q: ((q - pmin) / (pnom - pmin)) ** E
         g5 = lambda q: slope * (q - pnom) + 1
         q = sp.Symbol("qq")
         dg = lambda f, at: sp.diff(f(q), q).subs(q, at)
         checks = [
-            ("poly1 x1 = Pmin", x1a, pmin), ("poly1 x2 = Pmin + delta", x2a, pmin + delta),
+            ("poly1 x1 = Pmin", x1a, pmin), ("poly1 x2 = Pmin + band", x2a, pmin + w_con),
             ("poly1 f1 = g1(Pmin)", f1a, g1(pmin)), ("poly1 df1 = g1'(Pmin)", df1a, dg(g1, pmin)),
-            ("poly1 f2 = g3(Pmin+delta)", f2a, g3(pmin + delta)), ("poly1 df2 = g3'(Pmin+delta)", df2a, dg(g3, pmin + delta)),
-            ("poly2 x1 = Pnom - delta", x1b, pnom - delta), ("poly2 x2 = Pnom", x2b, pnom),
-            ("poly2 f1 = g3(Pnom-delta)", f1b, g3(pnom - delta)), ("poly2 df1 = g3'(Pnom-delta)", df1b, dg(g3, pnom - delta)),
+            ("poly1 f2 = g3(Pmin+band)", f2a, g3(pmin + w_con)), ("poly1 df2 = g3'(Pmin+band)", df2a, dg(g3, pmin + w_con)),
+            ("poly2 x1 = Pnom - band", x1b, pnom - w_con), ("poly2 x2 = Pnom", x2b, pnom),
+            ("poly2 f1 = g3(Pnom-band)", f1b, g3(pnom - w_con)), ("poly2 df1 = g3'(Pnom-band)", df1b, dg(g3, pnom - w_con)),
             ("poly2 f2 = g5(Pnom)", f2b, g5(pnom)), ("poly2 df2 = g5'(Pnom)", df2b, dg(g5, pnom)),
         ]
         for nm, got, want in checks:
@@ -183,9 +257,12 @@ def run(repo, chk):
             if e[0] == "store" and e[1].startswith("m.pdd_poly") and e[1].endswith("[node_name].value"):
                 vals[e[1]] = e[2]
         params = [e for e in p2.st.events if e[0] == "call" and e[1].startswith("aml.Param(")]
-        stores = p2.stores("m.pdd_poly")
+        stores = p2.stores("m.")          # every `m.<dict>[node_name] = aml.Param(v)` in order, paired with the Param calls in order
         plumb = {}
-        for (t, v, ln), pe in zip([s_ for s_ in stores if s_[0].endswith("[node_name]")], params):
+        sts_ = [s_ for s_ in stores if s_[0].endswith("[node_name]")]
+        if len(sts_) != len(params):
+            raise ExtractError("pdd_poly_coeffs_param: %d per-junction stores but %d aml.Param calls" % (len(sts_), len(params)))
+        for (t, v, ln), pe in zip(sts_, params):
             plumb[t] = pe[2][1][0]
         for i in (1, 2):
             for k in "abcd":
@@ -197,6 +274,35 @@ def run(repo, chk):
         chk.expect(need <= attrs, "R-C07-4", "pdd_poly_coeffs_param re-computes when the junction's Pmin/Pnom change [%s]" % tag, loc(pfn), found=sorted(attrs))
         B.check_updaters(chk, "R-C07-4", pfn, "pdd_poly_coeffs_param", [p2], need, loc(pfn))
     chk.floor("R-C07-3", 4 * 20)
+
+    # ---------------------------------------------------------------- R-C07-5 the four thresholds are ordered for EVERY legal Pmin < Preq
+    # (continuity was shown above branch by branch; it is only continuity of the CURVE if each branch is active on the interval its neighbours
+    # were fitted on, i.e. Pmin <= Pmin+band <= Preq-band <= Preq.  With a fixed band of 0.05 m and the default Preq = 0.07 m the bands overlapped.)
+    if dl is None:
+        raise ExtractError("pdd_smoothing_delta constant not found")
+    dval = float(dl[0])
+    opt_def = option_defaults(repo)
+    gaps = [1e-4, 0.02, 0.049, 0.05, 0.051, 0.07, 0.099, 0.1, 0.11, 0.2, 1.0, 20.0, 1e3]
+    if opt_def.get("required_pressure") is not None and opt_def.get("minimum_pressure") is not None:
+        gaps.append(opt_def["required_pressure"] - opt_def["minimum_pressure"])
+        chk.extra["default_pressure_range"] = gaps[-1]
+    nord = 0
+    for tag, wb in wexprs[:1] + [x_ for x_ in wexprs[1:] if not is_zero(x_[1] - wexprs[0][1])]:
+        for gp in sorted(set(gaps)):
+            bad_at = []
+            for pm in (-3.0, 0.0, 10.0):
+                wv = wb.xreplace({delta: sp.Float(dval), pmin: sp.Float(pm), pnom: sp.Float(pm + gp)})
+                try:
+                    wv = float(wv)
+                except TypeError:
+                    raise ExtractError("band width %s does not evaluate at Pmin=%s Preq=%s: %s" % (wb, pm, pm + gp, wv))
+                if not (wv > 0 and 2 * wv <= ((pm + gp) - pm) + 1e-12 * max(1.0, abs(pm))):     # the range as the floats carry it
+                    bad_at.append("Pmin=%g Preq=%g band=%g" % (pm, pm + gp, wv))
+            nord += 1
+            chk.expect(not bad_at, "R-C07-5", "thresholds Pmin <= Pmin+band <= Preq-band <= Preq are ordered for Preq - Pmin = %g" % gp, loc(pfn),
+                       "with overlapping bands the power-law branch is unreachable and the delivered demand jumps where the lower cubic hands over to the interior of the upper one",
+                       expected="0 < band <= (Preq - Pmin)/2", found="; ".join(bad_at))
+    chk.floor("R-C07-5", 12)
 
     # ---------------------------------------------------------------- R-C07-4 overrides
     for pname, dname, attr in (("pmin_param", "pmin", "minimum_pressure"), ("pnom_param", "pnom", "required_pressure")):
@@ -218,10 +324,6 @@ def run(repo, chk):
             seen.add(none[0])
             B.check_updaters(chk, "R-C07-4", fn2, pname, [p], {attr}, loc(fn2))
         chk.expect(seen == {True, False}, "R-C07-4", "%s handles both override cases" % pname, loc(fn2), found=sorted(seen))
-        if pname == "pnom_param":
-            raised = [p for p in pths if p.st.raised]
-            okr = any(any("m.pdd_smoothing_delta" in t and "<=" in t and v for t, v in p.conds) for p in raised)
-            chk.expect(okr, "R-C07-4", "pnom_param refuses a required pressure that does not exceed the smoothing delta", loc(fn2), found=[p.label for p in raised][:2])
     chk.floor("R-C07-4", 8)
 
 
@@ -232,9 +334,14 @@ WITNESSES = [
          new="            pressure_exponent = wn.options.hydraulic.pressure_exponent", rule="R-C07-1"),
     dict(name="slope-sign", file=CON, old="con.add_final_expr(d - d_expected*(slope*(h - elev - pnom) + 1.0))", new="con.add_final_expr(d - d_expected*(-slope*(h - elev - pnom) + 1.0))", rule="R-C07-1"),
     dict(name="spline-c-coefficient", file=B.SPLINE, old="    c = df2 - 3 * x2 ** 2 * a - 2 * x2 * b", new="    c = df2 - 3 * x2 ** 2 * a - x2 * b", rule="R-C07-2"),
-    dict(name="override-dropped", file=PAR, old="            if node.required_pressure is None:\n                required_pressure = wn.options.hydraulic.required_pressure\n            else:\n                required_pressure = node.required_pressure\n                \n            if required_pressure",
-         new="            required_pressure = wn.options.hydraulic.required_pressure\n            if required_pressure", rule="R-C07-4"),
+    dict(name="override-dropped", file=PAR, old="            if node.required_pressure is None:\n                required_pressure = wn.options.hydraulic.required_pressure\n            else:\n                required_pressure = node.required_pressure\n                \n            if node_name in m.pnom",
+         new="            required_pressure = wn.options.hydraulic.required_pressure\n            if node_name in m.pnom", rule="R-C07-4"),
+    dict(name="fixed-band-width-overlaps-for-short-ranges", file=PAR, old="            delta = min(m.pdd_smoothing_delta, (pnom - pmin)/4.0)", new="            delta = m.pdd_smoothing_delta", rule="R-C07-5"),
+    dict(name="band-half-the-range-is-still-ordered", file=PAR, old="            delta = min(m.pdd_smoothing_delta, (pnom - pmin)/4.0)", new="            delta = min(m.pdd_smoothing_delta, (pnom - pmin)/2.0)", silent=True),
+    dict(name="band-wider-than-half-the-range", file=PAR, old="            delta = min(m.pdd_smoothing_delta, (pnom - pmin)/4.0)", new="            delta = min(m.pdd_smoothing_delta, (pnom - pmin)/1.5)", rule="R-C07-5"),
+    dict(name="constraint-band-differs-from-fitted-band", file=PAR, old="                m.pdd_delta[node_name] = aml.Param(delta)", new="                m.pdd_delta[node_name] = aml.Param(m.pdd_smoothing_delta)", rule="R-C07-3"),
+    dict(name="exponent-change-does-not-rebuild-the-row", file=CON, old="            updater.add(node, 'pressure_exponent', pdd_constraint.update)\n", new="", rule="R-C07-1"),
     dict(name="poly2-f2", file=PAR, old="            x2 = pnom\n            f2 = 1.0", new="            x2 = pnom\n            f2 = 0.999", rule="R-C07-3"),
     dict(name="poly-coeffs-swapped", file=PAR, old="                m.pdd_poly1_coeffs_c[node_name] = aml.Param(c1)\n                m.pdd_poly1_coeffs_d[node_name] = aml.Param(d1)", new="                m.pdd_poly1_coeffs_c[node_name] = aml.Param(d1)\n                m.pdd_poly1_coeffs_d[node_name] = aml.Param(c1)", rule="R-C07-3"),
-    dict(name="rename-preserving", file=CON, old="                delta = m.pdd_smoothing_delta\n                slope = m.pdd_slope\n                a1 =", new="                slope = m.pdd_slope\n                delta = m.pdd_smoothing_delta\n                a1 =", silent=True),
+    dict(name="rename-preserving", file=CON, old="                delta = m.pdd_delta[node_name]\n                slope = m.pdd_slope\n                a1 =", new="                slope = m.pdd_slope\n                band = m.pdd_delta[node_name]\n                delta = band\n                a1 =", silent=True),
 ]
